@@ -151,7 +151,16 @@ def make_case(form, k1, k2, shape, data, dims=None, **tags):
     a = "\n".join(st)
     t = dict(pair="%s/%s" % (k1, k2), **{"class": form})
     t.update(tags)
-    return dict(sx=sx(["conv", form, k2, list(dims) if dims else [], q(a)]), impl=dict(stmts=[a, conv_stmt(form, k2, dims)]), tags=t)
+    stmt = conv_stmt(form, k2, dims)
+    pre = a
+    import zlib
+    if form == "ref" and zlib.crc32((a + k2).encode()) % 3 == 0:
+        # the annotated reference is evaluated inside a match arm (a local environment that does NOT bind x): the
+        # annotation on a reference to a program variable must convert there as it does at top level
+        pre = "g := 1\n" + a          # (the judge reads the source value from the LAST statement of the first step)
+        stmt = "y := g? | 1 => x<%s> | * => x<%s>." % (k2, k2)
+        t["context"] = "match-arm"
+    return dict(sx=sx(["conv", form, k2, list(dims) if dims else [], q(a)]), impl=dict(stmts=[pre, stmt]), tags=t)
 
 
 # ---------------------------------------------------------------- value pools
